@@ -55,11 +55,12 @@ Sup == {"lt40", "ge40"}                               \* bytes supplied to the r
 LenF == {"lt40", "ltst", "eq", "lt", "gt", "huge"}   \* header.len: < 40; 40 <= len < 40+struct; = supplied; shorter than
                                                       \* supplied but covering the struct; longer than supplied; > MAX_BUFFER_SIZE+4096
 Cap == {"c0", "lt16", "eq16", "mid", "big"}           \* reply buffer: 0; 1..15; 16; holds an error but not the success reply; enough
-FsRes == {"ok", "err"}
+FsRes == {"ok", "err", "neg"}                           \* "neg": LOOKUP answered with a negative entry (Entry.inode = 0)
+Sess == {"any", "pre74"}                              \* state carried over from INIT (Server::vers): "pre74" = the client negotiated a minor < 4
 Tr == {"fusedev", "virtiofs"}
 
 AllBody == UNION {BodyClasses(Shape(o)) : o \in Ops}
-Class == [op : Ops, sup : Sup, lenf : LenF, body : AllBody, cap : Cap, fsres : FsRes, tr : Tr, vu : BOOLEAN]
+Class == [op : Ops, sup : Sup, lenf : LenF, body : AllBody, cap : Cap, fsres : FsRes, tr : Tr, vu : BOOLEAN, sess : Sess]
 \* opcodes whose success reply is the bare 16-byte header
 UnitOps == {"UNLINK","RMDIR","RENAME","RENAME2","RELEASE","FSYNC","SETXATTR","REMOVEXATTR","FLUSH","RELEASEDIR","FSYNCDIR","SETLK",
             "SETLKW","ACCESS","DESTROY","FALLOCATE","SETUPMAPPING","REMOVEMAPPING"}
@@ -72,6 +73,8 @@ Realizable(c) ==
   /\ c.cap = "mid" => c.op \notin UnitOps            \* nothing lies between an error reply and a 16-byte success reply
   /\ (Shape(c.op) = "readdir" /\ c.body = "ok") => c.cap # "mid"   \* "ok" = requested size fits the reply buffer
   /\ (Shape(c.op) \in {"setupmapping", "removemapping"} /\ c.tr = "fusedev") => ~c.vu
+  /\ c.fsres = "neg" => c.op = "LOOKUP"
+  /\ c.sess = "pre74" => (c.op = "LOOKUP" /\ c.sup = "ge40")      \* the only handler that reads Server::vers
 Classes == {c \in Class : Realizable(c)}
 
 VARIABLES c,        \* the class of this transaction
@@ -81,17 +84,18 @@ VARIABLES c,        \* the class of this transaction
           buffered, \* the writer in ctx.w is a split (buffered) writer
           fscalls,  \* filesystem operations invoked (id remap not counted)
           ret,      \* "run" | "Ok" | "Err"
-          panic
-vars == <<c, pc, nreply, wrote, buffered, fscalls, ret, panic>>
+          panic,
+          rkind     \* what was sent: "none" | "ok" (success reply) | "err" (error reply)
+vars == <<c, pc, nreply, wrote, buffered, fscalls, ret, panic, rkind>>
 \* Beyond the listed properties: the MetricsHook protocol. `collect` is called once when a request reaches the
 \* dispatcher (after the oversize test) and `release` once when its handler returns, on every path; neither is
 \* called for requests refused before dispatch. Derived from pc history: Dispatched(h) below.
 
 Init == /\ c \in Classes /\ pc = "header" /\ nreply = 0 /\ wrote = FALSE /\ buffered = FALSE /\ fscalls = 0
-        /\ ret = "run" /\ panic = FALSE
+        /\ ret = "run" /\ panic = FALSE /\ rkind = "none"
 
 Finish(r) == pc' = "done" /\ ret' = r
-Unch == UNCHANGED <<c, nreply, wrote, buffered, fscalls, panic>>
+Unch == UNCHANGED <<c, nreply, wrote, buffered, fscalls, panic, rkind>>
 
 (* ---- reply primitives (SrvContext::reply_ok / do_reply_error over FuseDevWriter / VirtioFsWriter) ---- *)
 \* FuseDevWriter::check_available_space asserts `buffered || buf.is_empty()`
@@ -101,9 +105,9 @@ AssertFails == c.tr = "fusedev" /\ ~buffered /\ wrote
 CanHold(kind) == IF buffered THEN TRUE
                  ELSE IF kind = "ok" /\ c.op \notin UnitOps THEN c.cap = "big" ELSE c.cap \in {"eq16", "mid", "big"}
 Emit(kind, r) ==
-  IF AssertFails THEN /\ panic' = TRUE /\ Finish("panic") /\ UNCHANGED <<c, nreply, wrote, buffered, fscalls>>
+  IF AssertFails THEN /\ panic' = TRUE /\ Finish("panic") /\ UNCHANGED <<c, nreply, wrote, buffered, fscalls, rkind>>
   ELSE IF CanHold(kind)
-       THEN /\ nreply' = nreply + 1 /\ wrote' = TRUE /\ Finish(r) /\ UNCHANGED <<c, buffered, fscalls, panic>>
+       THEN /\ nreply' = nreply + 1 /\ wrote' = TRUE /\ rkind' = kind /\ Finish(r) /\ UNCHANGED <<c, buffered, fscalls, panic>>
        ELSE /\ Finish("Err") /\ Unch        \* EncodeMessage: nothing written
 ReplyOkThen(r) == Emit("ok", r)
 ReplyErrThen(r) == Emit("err", r)           \* reply_error / reply_error_explicit followed by returning r
@@ -112,13 +116,13 @@ ReplyErrThen(r) == Emit("err", r)           \* reply_error / reply_error_explici
 ReadHeader ==
   /\ pc = "header"
   /\ IF c.sup = "lt40" THEN Finish("Err") /\ Unch                     \* read_obj(InHeader) fails: DecodeMessage
-     ELSE pc' = "oversize" /\ UNCHANGED <<c, nreply, wrote, buffered, fscalls, ret, panic>>
+     ELSE pc' = "oversize" /\ UNCHANGED <<c, nreply, wrote, buffered, fscalls, ret, panic, rkind>>
 Oversize ==                                                            \* after remap_ctx_ids
   /\ pc = "oversize"
   /\ IF c.lenf = "huge"
      THEN IF c.op \in {"FORGET", "BATCH_FORGET"} THEN Finish("Err") /\ Unch
           ELSE ReplyErrThen("Ok")                                      \* ENOMEM
-     ELSE pc' = "parse" /\ UNCHANGED <<c, nreply, wrote, buffered, fscalls, ret, panic>>
+     ELSE pc' = "parse" /\ UNCHANGED <<c, nreply, wrote, buffered, fscalls, ret, panic, rkind>>
 \* (before the two "fix:" commits for C20 the asynchronous entry point answered oversize forgets and refused every request
 \*  whose reply buffer was shorter than a header; both procedures now share this test)
 
@@ -126,7 +130,7 @@ Oversize ==                                                            \* after 
 BodyWindow == CASE c.lenf \in {"lt40", "ltst"} -> "badlen"            \* InvalidHeaderLength
                 [] c.lenf = "gt" -> "short"                            \* read_exact fails: DecodeMessage
                 [] OTHER -> "got"
-Goto(p) == pc' = p /\ UNCHANGED <<c, nreply, wrote, buffered, fscalls, ret, panic>>
+Goto(p) == pc' = p /\ UNCHANGED <<c, nreply, wrote, buffered, fscalls, ret, panic, rkind>>
 Parse ==
   /\ pc = "parse"
   /\ LET sh == Shape(c.op) IN
@@ -149,11 +153,11 @@ Parse ==
             [] sh = "read" ->
                  \* split_at(16) on the reply writer
                  IF c.cap \in {"c0", "lt16"} THEN Finish("Err") /\ Unch
-                 ELSE pc' = "fs" /\ buffered' = TRUE /\ UNCHANGED <<c, nreply, wrote, fscalls, ret, panic>>
+                 ELSE pc' = "fs" /\ buffered' = TRUE /\ UNCHANGED <<c, nreply, wrote, fscalls, ret, panic, rkind>>
             [] sh = "readdir" ->
                  IF c.body = "size_gt_avail" THEN ReplyErrThen("Ok")              \* ENOMEM
                  ELSE IF c.cap \in {"c0", "lt16"} THEN Finish("Err") /\ Unch
-                 ELSE pc' = "fs" /\ buffered' = TRUE /\ UNCHANGED <<c, nreply, wrote, fscalls, ret, panic>>
+                 ELSE pc' = "fs" /\ buffered' = TRUE /\ UNCHANGED <<c, nreply, wrote, fscalls, ret, panic, rkind>>
             [] sh = "ioctl" -> IF c.body = "in_size_gt_avail" THEN ReplyErrThen("Ok") ELSE Goto("fs")   \* ENOTTY
             [] sh = "init" -> IF c.body = "major_lt" THEN ReplyErrThen("Ok")      \* EPROTO
                               ELSE IF c.body = "major_gt" THEN ReplyOkThen("Ok")  \* bare 7.x reply, nothing negotiated
@@ -169,17 +173,18 @@ CallFs ==
   /\ pc = "fs"
   /\ fscalls' = fscalls + 1
   /\ LET sh == Shape(c.op) IN
-     CASE sh \in {"forget", "bforget"} -> pc' = "done" /\ ret' = "Ok" /\ UNCHANGED <<c, nreply, wrote, buffered, panic>>
-       [] sh = "notify_reply" -> IF c.fsres = "err" THEN pc' = "reply_err" /\ UNCHANGED <<c, nreply, wrote, buffered, ret, panic>>
-                                 ELSE pc' = "done" /\ ret' = "Ok" /\ UNCHANGED <<c, nreply, wrote, buffered, panic>>
-       [] sh = "destroy" -> pc' = "reply_ok" /\ UNCHANGED <<c, nreply, wrote, buffered, ret, panic>>
-       [] OTHER -> pc' = (IF c.fsres = "ok" THEN "reply_ok" ELSE "reply_err") /\ UNCHANGED <<c, nreply, wrote, buffered, ret, panic>>
+     CASE sh \in {"forget", "bforget"} -> pc' = "done" /\ ret' = "Ok" /\ UNCHANGED <<c, nreply, wrote, buffered, panic, rkind>>
+       [] sh = "notify_reply" -> IF c.fsres = "err" THEN pc' = "reply_err" /\ UNCHANGED <<c, nreply, wrote, buffered, ret, panic, rkind>>
+                                 ELSE pc' = "done" /\ ret' = "Ok" /\ UNCHANGED <<c, nreply, wrote, buffered, panic, rkind>>
+       [] sh = "destroy" -> pc' = "reply_ok" /\ UNCHANGED <<c, nreply, wrote, buffered, ret, panic, rkind>>
+       \* lookup: before ABI 7.4 a zero nodeid is not a valid answer, ENOENT is sent instead
+       [] OTHER -> pc' = (IF c.fsres = "ok" \/ (c.fsres = "neg" /\ c.sess # "pre74") THEN "reply_ok" ELSE "reply_err") /\ UNCHANGED <<c, nreply, wrote, buffered, ret, panic, rkind>>
 ReplyOk ==
   /\ pc = "reply_ok"
   /\ IF Shape(c.op) = "destroy"
      THEN \* destroy ignores a reply failure and handle_message returns Ok(0)
-          IF AssertFails THEN panic' = TRUE /\ Finish("panic") /\ UNCHANGED <<c, nreply, wrote, buffered, fscalls>>
-          ELSE IF CanHold("ok") THEN nreply' = nreply + 1 /\ wrote' = TRUE /\ Finish("Ok") /\ UNCHANGED <<c, buffered, fscalls, panic>>
+          IF AssertFails THEN panic' = TRUE /\ Finish("panic") /\ UNCHANGED <<c, nreply, wrote, buffered, fscalls, rkind>>
+          ELSE IF CanHold("ok") THEN nreply' = nreply + 1 /\ wrote' = TRUE /\ rkind' = "ok" /\ Finish("Ok") /\ UNCHANGED <<c, buffered, fscalls, panic>>
           ELSE Finish("Ok") /\ Unch
      ELSE ReplyOkThen("Ok")
 ReplyErr == pc = "reply_err" /\ ReplyErrThen("Ok")
@@ -195,7 +200,9 @@ AtMostOne == nreply <= 1
 ForgetSilent == c.op \in {"FORGET", "BATCH_FORGET"} => nreply = 0
 Answered == (Done /\ WellFormed /\ NeedsReply /\ c.cap = "big") => nreply = 1
 OneOperation == fscalls <= 1
+\* a negative entry reaches a pre-7.4 client as an error, any other client as an entry
+NegativeEntry == (Done /\ c.fsres = "neg" /\ fscalls = 1 /\ nreply = 1) => (rkind = IF c.sess = "pre74" THEN "err" ELSE "ok")
 \* predicted outcome of a finished transaction, printed once per class for the harness
 Dispatched == c.sup = "ge40" /\ c.lenf # "huge"
-Outcome == [nreply |-> nreply, ret |-> ret, fscalls |-> fscalls, hooks |-> IF Dispatched THEN 1 ELSE 0]
+Outcome == [nreply |-> nreply, ret |-> ret, fscalls |-> fscalls, hooks |-> IF Dispatched THEN 1 ELSE 0, rkind |-> rkind]
 =============================================================================
